@@ -1478,7 +1478,7 @@ int main(int argc, char** argv)
         std::string tier = opt("--tier", "quick");
         return run_main(self, prop, tier == "thorough" ? 1 : 0, seed, jobs,
             std::strtoull(opt("--runs", "0").c_str(), nullptr, 10),
-            std::strtod(opt("--cap", tier == "thorough" ? "1500" : "240").c_str(), nullptr));
+            std::strtod(opt("--cap", tier == "thorough" ? "900" : "240").c_str(), nullptr));
     }
 
     if (a[1] == "replay" && a.size() >= 3)
